@@ -40,7 +40,7 @@ pub fn prop() -> Prop {
          schema has a deprecation, a default value, or an interface implemented by >= 2 types; distinct by schema \
          text and mode.",
     )
-    .random("schemas", check, |t| if t == Tier::Quick { 40_000 } else { 400_000 }, |t| if t == Tier::Quick { 500 } else { 900 })
+    .random("schemas", check, |t| if t == Tier::Quick { 40_000 } else { 400_000 }, |t| if t == Tier::Quick { 600 } else { 1000 })
     .text(check_text)
     .assumptions(&[
         "graphql-js is not installed: the expectation is a reference written from the October 2021 spec and graphql-js v16 behaviour; where graphql-js's exact output is not certain the comparison is weakened (listed in the module documentation), never guessed",
@@ -221,6 +221,14 @@ pub fn evaluate(doc: &Document, extra: &Extra, ctx: &mut Ctx) -> Outcome {
     }
     if doc.defs.iter().any(|d| matches!(d, Definition::Type(t) if t.is_ext)) {
         ctx.class("has-type-extensions");
+        let mut names: Vec<&str> = doc.defs.iter().filter_map(|d| if let Definition::Type(t) = d { if t.is_ext { Some(t.name.as_str()) } else { None } } else { None }).collect();
+        names.sort();
+        if names.windows(2).any(|w| w[0] == w[1]) {
+            ctx.class("type-with-several-extensions");
+        }
+        if doc.defs.iter().any(|d| matches!(d, Definition::Type(t) if t.is_ext && !t.implements.is_empty())) {
+            ctx.class("extension-adds-interface");
+        }
     }
     if s.schema_description.is_some() {
         ctx.class("schema-description");
@@ -248,27 +256,91 @@ pub fn evaluate(doc: &Document, extra: &Extra, ctx: &mut Ctx) -> Outcome {
     ctx.pick_failure(fails)
 }
 
+/// Further validity-preserving splitting on top of gen::schema::split_extensions, so that a type
+/// can have SEVERAL extensions, placed before and after its definition: a suffix of the fields of
+/// a definition or extension moves into a new extension, and a suffix of the `implements` list of
+/// a definition moves into a new (otherwise empty) extension. The merged order of components is
+/// whatever the document order implies (definition first, then extensions in document order).
+pub fn split_more(c: &mut Choices, doc: &mut Document) -> usize {
+    let mut extra: Vec<Definition> = vec![];
+    for d in doc.defs.iter_mut() {
+        let Definition::Type(t) = d else { continue };
+        if !matches!(t.kind, TypeKind::Object | TypeKind::Interface) {
+            continue;
+        }
+        if t.fields.len() > 1 && c.bool(90) {
+            let k = 1 + c.choose(t.fields.len() - 1);
+            let mut e = TypeDef::new(t.kind, &t.name);
+            e.is_ext = true;
+            e.fields = t.fields.split_off(k);
+            extra.push(Definition::Type(e));
+        }
+        if !t.is_ext && !t.implements.is_empty() && c.bool(90) {
+            let k = c.choose(t.implements.len());
+            let mut e = TypeDef::new(t.kind, &t.name);
+            e.is_ext = true;
+            e.implements = t.implements.split_off(k);
+            extra.push(Definition::Type(e));
+        }
+    }
+    let n = extra.len();
+    for e in extra {
+        let i = c.choose(doc.defs.len() + 1);
+        doc.defs.insert(i, e);
+    }
+    n
+}
+
 pub fn check(bytes: &[u8], ctx: &mut Ctx) -> Outcome {
-    let mut c = Choices::new(bytes);
+    // A prefix of the choice vector drives the mode and the splitting into extensions, the rest
+    // drives the schema, so that a long schema cannot starve the former of choice bytes.
+    let (head, tail) = bytes.split_at(bytes.len().min(48));
+    let mut m = Choices::new(head);
+    let want_ext = m.coin();
+    let want_more = m.coin();
+    let want_extra = m.bool(110);
+    let typename = m.coin();
+    let wrap = m.choose(3);
+    let before = m.coin();
+    let picks = [m.byte(), m.byte(), m.byte()];
+    let n_picks = m.small(2);
+    let want_schema_desc = m.bool(70);
+    let mut c = Choices::new(tail);
     let opts = gs::Opts { max_types: if ctx.tier == Tier::Quick { 3 } else { 4 }, ..gs::Opts::default() };
     let mut doc = gs::schema(&mut c, &opts);
-    if c.coin() {
-        gs::split_extensions(&mut c, &mut doc);
+    if want_schema_desc {
+        // gen::schema describes the schema definition rarely: give it (or add) a description
+        let d = crate::gen::strlit::description(&mut m);
+        match doc.defs.iter_mut().find_map(|d| if let Definition::Schema(sd) = d { if !sd.is_ext { Some(sd) } else { None } } else { None }) {
+            Some(sd) => sd.description = Some(d),
+            None => {
+                let s = RefSchema::from_document(&doc);
+                let roots: Vec<(OpType, String)> = OpType::ALL.iter().filter_map(|op| s.root(*op).map(|n| (*op, n.to_string()))).collect();
+                let at = m.choose(doc.defs.len() + 1);
+                doc.defs.insert(at, Definition::Schema(SchemaDef { is_ext: false, description: Some(d), directives: vec![], roots }));
+            }
+        }
+    }
+    if want_ext {
+        gs::split_extensions(&mut m, &mut doc);
+        if want_more {
+            split_more(&mut m, &mut doc);
+        }
     }
     let mut extra = Extra::default();
-    if c.bool(100) {
+    if want_extra {
         let s = RefSchema::from_document(&doc);
         let cands = concrete_candidates(&s);
-        extra.typename = c.coin();
-        let n = if cands.is_empty() { 0 } else { c.small(2) + if extra.typename { 0 } else { 1 } };
-        for _ in 0..n {
-            let pick = cands[c.choose(cands.len())].clone();
+        extra.typename = typename;
+        let n = if cands.is_empty() { 0 } else { n_picks + if typename { 0 } else { 1 } };
+        for b in picks.iter().take(n) {
+            let pick = cands[(*b as usize * cands.len()) >> 8].clone();
             if !extra.concrete.contains(&pick) {
                 extra.concrete.push(pick);
             }
         }
-        extra.wrap = c.choose(3);
-        extra.before = c.coin();
+        extra.wrap = wrap;
+        extra.before = before;
     }
     evaluate(&doc, &extra, ctx)
 }
